@@ -95,11 +95,11 @@ void rotationDerivative(vf::Ctx & c)
   Matrix3d dRT = sr.dRTdAngles(v);
   for (int k = 0; k < 3; ++k) {
     double e = (dRT.col(k) - reported[k] * v).cwiseAbs().maxCoeff();
-    c.check(e <= 1e-12 * (1 + v.norm()), vf::fmt("dRTdAngles column %d differs from dRdAngle*v by %.3g", k, e));
+    VF_CHECK(c, e <= 1e-12 * (1 + v.norm()), "dRTdAngles column %d differs from dRdAngle*v by %.3g", k, e);
   }
   // and R() itself is the product Rz*Ry*Rx (pins the map whose derivative is taken)
   double eR = (sr.R() - rotZ(a[2]) * rotY(a[1]) * rotX(a[0])).cwiseAbs().maxCoeff();
-  c.check(eR <= 1e-14, vf::fmt("R() differs from Rz*Ry*Rx by %.3g", eR));
+  VF_CHECK(c, eR <= 1e-14, "R() differs from Rz*Ry*Rx by %.3g", eR);
   c.check(((sr * v) - sr.R() * v).norm() <= 1e-12 * (1 + v.norm()), "operator*(vector) differs from R()*vector");
 }
 
@@ -303,8 +303,8 @@ void lsCovariance(vf::Ctx & c)
   double tol = 64 * eps * condN * p + 1e-12;
   double err = (cov.template cast<double>() - ref).norm() / ref.norm();
   c.maxStat(sizeof(S) == 4 ? "ls-covariance-relative-error/tol(float)" : "ls-covariance-relative-error/tol(double)", err / tol);
-  c.check(err <= tol, vf::fmt("estimate covariance differs from variance * A (J^T J)^-1 A by %.3g relative (tol %.3g; p=%d m=%d cond(J)=%.3g path=%s precond=%d)",
-    err, tol, p, m, cond, pn[path], precond));
+  VF_CHECK(c, err <= tol, "estimate covariance differs from variance * A (J^T J)^-1 A by %.3g relative (tol %.3g; p=%d m=%d cond(J)=%.3g path=%s precond=%d)",
+    err, tol, p, m, cond, pn[path], precond);
 }
 
 const std::vector<vf::Sub> kSubs = {
